@@ -32,6 +32,9 @@ structure JSt where
   -- C05 (producer layer): acknowledgement mode and time-out the producer was built with
   prodAcks : Int := 1
   prodTimeout : Int := 30000
+  /-- C10: the client's view may lag the cluster (a reset, a partial load, a failed load, or a cluster change since the last
+      complete load): what `topics()` shows is then C06's subject, not a statement about one response -/
+  viewLags : Bool := false
   -- C14: groups whose last answer was 'not coordinator for group': the next attempt, in whatever call, needs a look-up first
   needLookup : List String := []
 
@@ -488,9 +491,17 @@ def judgeC10 (ops : List OpRec) : List String :=
     let ioFault := op.evs.any (fun e => match e with | .io _ _ => true | .connect _ ok => !ok | _ => false)
     let faulty := !c.faults.all (·.count == 0) || ioFault
     let bodies := (truthBodies c op).2
+    let clusterChanged := op.setup.any fun (l : List String) => ["BROKER", "DELBROKER", "TOPIC", "DELTOPIC", "LEADER", "ORDER"].contains (l.headD "")
+    let s := if clusterChanged then { s with viewLags := true } else s
+    let s := match op.toks with
+      | [_, "load_metadata_all"] => { s with viewLags := !(op.result == "ok") }
+      | _ :: "load_metadata" :: _ => { s with viewLags := true }
+      | [_, "reset_metadata"] => { s with viewLags := true }
+      | "client_new" :: _ => { s with viewLags := false }
+      | _ => s
     let s := match op.toks with
     | [_, "topics"] =>
-      if op.result == expectTopics c then s else viol s "C10-metadata-view" op s!"topics() shows `{op.result}`, the broker sent `{expectTopics c}`"
+      if s.viewLags || op.result == expectTopics c then s else viol s "C10-metadata-view" op s!"topics() shows `{op.result}`, the broker sent `{expectTopics c}`"
     | _ :: "fetch_offsets" :: time :: ts =>
       if faulty then s else
       match time.toInt?, ts.mapM fromHex with
@@ -501,7 +512,7 @@ def judgeC10 (ops : List OpRec) : List String :=
             let k := (ts.filter (· == t)).length
             let one := ps.map fun (i, p) => (((i : Nat) : Int), offsetForTime p time)
             if one.isEmpty then none else some (t, (List.replicate k one).flatten)
-        if op.result == fmtOffsets want then s else viol s "C10-offsets" op s!"returned `{op.result}`, the brokers sent `{fmtOffsets want}`"
+        if s.viewLags || op.result == fmtOffsets want then s else viol s "C10-offsets" op s!"returned `{op.result}`, the brokers sent `{fmtOffsets want}`"
       | _, _ => s
     | _ :: "list_offsets" :: time :: ts =>
       if faulty then s else
@@ -512,7 +523,7 @@ def judgeC10 (ops : List OpRec) : List String :=
             let k := (ts.filter (· == t)).length
             let one := ps.map fun (i, p) => (((i : Nat) : Int), offsetForTime p time, time)
             if one.isEmpty then none else some (t, (List.replicate k one).flatten)
-        if op.result == fmtListOffsets want then s else viol s "C10-list-offsets" op s!"returned `{op.result}`, the brokers sent `{fmtListOffsets want}`"
+        if s.viewLags || op.result == fmtListOffsets want then s else viol s "C10-list-offsets" op s!"returned `{op.result}`, the brokers sent `{fmtListOffsets want}`"
       | _, _ => s
     | _ :: "fetch_group_offsets" :: g :: args =>
       -- whatever was retried on the way: a call that succeeds returns the content of the reply that ended it, nothing of
@@ -1972,6 +1983,8 @@ def judge (prop : String) (lines : List String) : List String :=
   -- fetch responses are part of "the content the broker sent": client level as in C02, consumer level as in C01
   -- (everything the brokers' replies carried is handed out, whatever the shape of another broker's reply)
   | "C10" => judgeC10 ops ++ ((judgeC02 ops).map fun (l : String) => l.replace "C02-" "C10-fetch-")
+      -- (what the client reports after a sequence of metadata responses, per topic: C06's demand)
+      ++ ((judgeC06 ops).map fun (l : String) => l.replace "C06-" "C10-metadata-sequence-")
       ++ (((judgeC01 ops).filter fun (l : String) => (l.splitOn "C01-undelivered").length == 1).map fun (l : String) => l.replace "C01-" "C10-poll-")
   | "C11" => judgeC11 ops
   | "C14" => judgeC14 ops
